@@ -565,6 +565,11 @@ class DataFile:
 
       div_element.push_child(self.cur_p_element)
 
+    if self.cur_p_element is None:
+      # an intermediate or last block of a cumulative set that is not preceded by a first block
+      LOGGER.error("Subtitle block does not belong to any subtitle")
+      return
+
     if tti.CS in (0x01, 0x02, 0x03):
       # create a nested span if we are in cumulative mode
       sub_element = model.Span(self.doc)
